@@ -1,37 +1,52 @@
 """comps_regex.py - slice regex (property C18: YANG patterns are XSD regular expressions).
 
-  Rewrite    exact correspondence: the text libyang hands to pcre2_compile() (captured by --wrap in
-             impl/t_regex.c) vs Rewrite.rewrite; arbitrary byte strings over the regex alphabet, all
-             block names, all table entries (bracket depth = entry number, defect D2 of Rewrite.v).
-  Match      property oracle in Comp form: the model column is the XSD reference
-             (XsdParse.xsd_match = parse, then the derivative matcher proved correct against
-             in_lang); the implementation column is what ly_pattern_match() and lyd_value_validate()
-             answer. Patterns are generated from the XSD grammar (valid by construction), so every
-             disagreement is a deviation of libyang from C18; witness() classifies it.
-  MatchList  several patterns on one leaf, some with invert-match, vs Rewrite.validate_patterns over
-             the XSD matcher (tie of C18_invert_match).
-  RewriteUB  oracle (sanitizer build): patterns on which the block rewrite indexes its table out of
-             bounds (defect D3 of Rewrite.v); the model answers UB for them, so they are kept out of
-             the Rewrite correspondence.
+  Rewrite     exact correspondence: the text libyang hands to pcre2_compile() (captured by --wrap in
+              impl/t_regex.c) vs Rewrite.rewrite; arbitrary byte strings over the regex alphabet, all
+              block names in all bracket contexts, escaped backslashes before brackets and blocks.
+  Match       property oracle in Comp form: the model column is the XSD reference
+              (XsdParse.xsd_match = parse, then the derivative matcher proved correct against
+              in_lang); the implementation column is what ly_pattern_match() and lyd_value_validate()
+              answer. Patterns are generated from the XSD grammar (valid by construction), so every
+              disagreement is a deviation of libyang from C18; witness() classifies it.
+  MatchList   several patterns on one leaf, some with invert-match, vs Rewrite.validate_patterns over
+              the XSD matcher (tie of C18_invert_match).
+  RewriteUB   oracle (sanitizer build): the former witnesses of the out-of-bounds table index of the
+              block rewrite (fixed by 0ef0929) and generated patterns of the same shape must run clean.
+  EntryPoints oracle: ly_pattern_match(), lyd_value_validate(), XPath re-match() (all through
+              impl/t_regex.c) and the yangre tool (run as a process) give the same answer.
 
-Deviation tags returned by Match.witness():
-  re-escaped-anchor      \\^ outside brackets is rewritten to \\\\^ (backslash + anchor), never matches '^'
-  re-block-index         \\p{IsX} is replaced by the range of table entry (bracket depth), not of X
-  re-w-underscore        \\w / \\W are PCRE2's (letters, digits, '_'), XSD's \\w is everything but P, Z, C
-  re-unsupported-escape  \\i \\c \\I \\C are not translated (PCRE2: error, control escape, code unit)
-  re-subtraction         [a-z-[aeiou]] is read by PCRE2 as a class followed by a literal ']'
-  re-posix-class         a bracket expression that starts with '.', ':' or '=' and ends with the same character, e.g.
-                         [..] or [=a=], is rejected by PCRE2 as a POSIX collating element / class name
-  re-match-limit         pcre2_match() gives up (match limit) on nested quantifiers: the value is rejected with an
-                         internal error whatever the XSD answer is
-  re-block-oob           the block rewrite reads ublock2urange[] out of bounds (see RewriteUB); answers are arbitrary
-  re-dot-cr              '.' matches CR (XSD: [^\\n\\r])
-  re-s-unicode           \\s matches VT, FF, NEL, NBSP ... (PCRE2_UCP), XSD: only space, TAB, LF, CR
+Deviation tags returned by Match.witness() (each is one entry of known_findings.d/regex.json; anything else that
+disagrees with the XSD reference is reported as a VIOLATION):
+  re-w-underscore           \\w matches '_' (PCRE2: letters, digits, '_'; XSD: everything but P, Z, C), \\W rejects it
+  re-w-symbol               \\w rejects symbols and marks (S*, M*: '$', '^', '+', U+0301 ...), \\W matches them
+  re-esc-i re-esc-I         \\i and \\I are not translated: PCRE2 rejects the pattern
+  re-esc-c                  \\c is PCRE2's control-character escape (\\c+ is the character 'k')
+  re-esc-C                  \\C is PCRE2's single code unit
+  re-subtraction            [a-z-[aeiou]] is read by PCRE2 as a class followed by a literal ']'
+  re-posix-class            a bracket expression that starts with '.', ':' or '=' and ends with the same character, e.g.
+                            [..] or [=a=], is rejected by PCRE2 as a POSIX collating element / class name
+  re-block-negated          \\P{IsX} is not translated: PCRE2 rejects the pattern (unknown property)
+  re-block-prefix           \\p{IsGreekExtended} and five more names are replaced by the range of the earlier table entry
+                            whose name is a prefix of theirs (Greek, Bopomofo, CJKCompatibility, Arabic)
+  re-block-specials         \\p{IsSpecials}: the replacement text is cut after 19 bytes
+  re-block-after-backslash  after an escaped backslash directly before a bracket or a block, the bracket counter of the
+                            block rewrite is off by one: a later block is written with / without brackets wrongly
+  re-match-limit            pcre2_match() gives up (match limit) on nested quantifiers: the value is rejected with an
+                            internal error whatever the XSD answer is
+  re-dot-cr                 '.' matches CR (XSD: [^\\n\\r])
+  re-s-unicode              \\s matches VT, FF, NEL, NBSP ... (PCRE2_UCP), XSD: only space, TAB, LF, CR
+Fixed and no longer expected (regression cases are kept in every tier): re-escaped-anchor (97840a6), re-block-index and
+re-block-oob (0ef0929).
 """
 import itertools
+import os
+import subprocess
+import unicodedata
+from concurrent.futures import ThreadPoolExecutor
 from functools import lru_cache
 
 from props.comps import Comp
+import vlib
 from vlib import hexs, unhex
 
 WRAP = "-Wl,--wrap=pcre2_compile_8"
@@ -71,11 +86,12 @@ def all_strings(alpha, maxlen):
 # exhaustive enumeration of XSD regular expressions by size (number of grammar units)
 # ----------------------------------------------------------------------------------------------------
 E_CHARS = ["a", "b", "^", "$", "-", "_", "\u00e9", "0", "1"]
-E_ESCS = ["\\\\", "\\^", "\\.", "\\-", "\\|", "\\(", "\\)", "\\*", "\\+", "\\?", "\\{", "\\}", "\\[", "\\]"]
+E_ESCS = ["\\\\", "\\^", "\\.", "\\-", "\\|", "\\(", "\\)", "\\*", "\\+", "\\?", "\\{", "\\}", "\\[", "\\]",
+          "\\p{IsBasicLatin}", "\\p{IsLatin-1Supplement}"]
 E_QUANTS = ["?", "*", "+", "{0}", "{1}", "{0,1}", "{1,}", "{0,}", "{1,1}", "{01}"]
 # bracket expression items: (text, may be first, may be anywhere else)
 C_ITEMS = ["a", "b", "$", "_", "\u00e9", "0", "1", ".", "|", "(", ")", "*", "+", "?", "{", "}",
-           "\\\\", "\\^", "\\-", "\\[", "\\]", "a-b", "0-1", "_-a", "$-a", "a-\u00e9", "\\--a"]
+           "\\\\", "\\^", "\\-", "\\[", "\\]", "a-b", "0-1", "_-a", "$-a", "a-\u00e9", "\\--a", "\\p{IsLatin-1Supplement}"]
 C_NOTFIRST = ["^", "^-a"]          # a leading '^' would negate
 C_EDGE = ["-"]                     # literal '-' only first or last
 
@@ -192,20 +208,83 @@ def posix_like(pat):
     return False
 
 
+SHADOWED = ["GreekExtended", "BopomofoExtended", "CJKCompatibilityIdeographs", "ArabicPresentationForms-A",
+            "CJKCompatibilityForms", "ArabicPresentationForms-B"]
+DUMMY_RANGE = b"[\\x{0000}-\\x{007F}]"
+
+
+def depth_confused(pat):
+    """replays the two passes of the rewrite on the pattern: True when, at some occurrence of \\p{Is, the bracket
+    counter of lys_compile_pattern_chblocks_xmlschema2perl() (a bracket is escaped iff the PREVIOUS BYTE is a backslash)
+    and the bracket depth with proper escape tracking disagree about being 0 (defect D3 of Rewrite.v)"""
+    b = pat.encode("utf-8") if isinstance(pat, str) else bytes(pat)
+    if b"\\p{Is" not in b or b"\\\\" not in b:
+        return False
+    # first pass: a backslash before every unescaped '^' / '$' outside brackets
+    q = bytearray()
+    brack = 0
+    esc = False
+    for c in b:
+        if c == 0x5c:
+            esc = not esc
+            q.append(c)
+            continue
+        if c in (0x24, 0x5e) and not brack and not esc:
+            q.append(0x5c)
+        elif c == 0x5b and not esc:
+            brack += 1
+        elif c == 0x5d and not esc:
+            if not brack:
+                return False
+            brack -= 1
+        q.append(c)
+        esc = False
+    b = bytes(q)
+    for _ in range(len(b) + 1):
+        pos = b.find(b"\\p{Is")
+        if pos < 0:
+            return False
+        end = b.find(b"}", pos)
+        if end < 0 or not any(b.startswith(n.encode(), pos + 5) for n in BLOCKS):
+            return False
+        lb = 0
+        proper = 0
+        esc = False
+        for i in range(pos):
+            c = b[i]
+            if c in (0x5b, 0x5d) and (i == 0 or b[i - 1] != 0x5c):
+                lb += 1 if c == 0x5b else -1
+            if c == 0x5c:
+                esc = not esc
+                continue
+            if c in (0x5b, 0x5d) and not esc:
+                proper += 1 if c == 0x5b else -1
+            esc = False
+        if (lb == 0) != (proper == 0):
+            return True
+        b = b[:pos] + (DUMMY_RANGE if lb == 0 else DUMMY_RANGE[1:-1]) + b[end + 1:]
+    return False
+
+
 def features(pat):
     f = set()
     if posix_like(pat):
         f.add("re-posix-class")
+    if depth_confused(pat):
+        f.add("re-block-after-backslash")
     for kind, t, inc in scan(pat):
         if kind == "esc":
-            if t[1] in "pP" and ("\\%s{Is" % t[1]) in pat:
-                f.add("re-block-index")
-            elif t[1] in "^$" and not inc:
-                f.add("re-escaped-anchor")
+            if t[1] == "P" and "\\P{Is" in pat:
+                f.add("re-block-negated")
+            elif t[1] == "p" and "\\p{Is" in pat:
+                if any("\\p{Is%s}" % n in pat for n in SHADOWED):
+                    f.add("re-block-prefix")
+                if "\\p{IsSpecials}" in pat:
+                    f.add("re-block-specials")
             elif t[1] in "icIC":
-                f.add("re-unsupported-escape")
+                f.add("re-esc-" + t[1])
             elif t[1] in "wW":
-                f.add("re-w-underscore")
+                f.add("w")
             elif t[1] in "sS":
                 f.add("s")
         elif kind == "sub":
@@ -215,24 +294,35 @@ def features(pat):
     return f
 
 
-DEV_ORDER = ["re-block-index", "re-escaped-anchor", "re-unsupported-escape", "re-subtraction", "re-posix-class", "re-w-underscore"]
+# deviations that depend on the pattern only, in the order in which they are blamed
+DEV_ORDER = ["re-block-after-backslash", "re-block-prefix", "re-block-specials", "re-block-negated", "re-esc-i", "re-esc-I",
+             "re-esc-c", "re-esc-C", "re-subtraction", "re-posix-class"]
 S_EXTRA = "\x0b\x0c\x1c\x1d\x1e\x1f\u0085\u00a0\u1680\u2000\u2001\u2002\u2003\u2004\u2005\u2006\u2007\u2008\u2009\u200a\u2028\u2029\u202f\u205f\u3000"
 
 
 def expected_dev(pat):
+    """the pattern contains a construct on which libyang is known to deviate from XSD for some string (used to keep such
+    patterns out of the quick tier, where only the recorded witnesses of the known findings are run)"""
     f = features(pat)
     for t in DEV_ORDER:
         if t in f:
             return t
+    if "w" in f:
+        return "re-w"
     return None
 
 
 def classify(pat, s):
-    """documented deviation that explains a disagreement on (pattern, string), or None"""
+    """known deviation that explains a disagreement on (pattern, string), or None"""
     f = features(pat)
     for t in DEV_ORDER:
         if t in f:
             return t
+    if "w" in f:
+        if "_" in s:
+            return "re-w-underscore"
+        if any(unicodedata.category(ch)[0] in "SM" for ch in s):
+            return "re-w-symbol"
     if "dot" in f and "\r" in s:
         return "re-dot-cr"
     if "s" in f and any(ch in S_EXTRA for ch in s):
@@ -240,17 +330,33 @@ def classify(pat, s):
     return None
 
 
-# one canonical (pattern, string) per documented deviation; replayed in every tier
+# regression cases of the two fixed defects: must agree with the XSD reference in every tier
+REGRESSION = [
+    ("a\\^b", ["a^b", "a\\^b", "ab", "a\\b"]),                       # 97840a6 (was re-escaped-anchor)
+    ("\\^+[$]\\^", ["^$^", "^^^$^", "\\^$^"]),
+    ("\\p{IsGreek}", ["\u03b1", "a", "\u0370", "\u03ff", "\u0400"]),     # 0ef0929 (was re-block-index)
+    ("[\\p{IsGreek}a]+", ["\u03b1a", "b", "\u00e9"]),
+    ("[^\\p{IsBasicLatin}]", ["\u00e9", "a"]),
+    ("\\[\\p{IsCyrillic}", ["[\u0416", "[a"]),
+]
+
+# one canonical (pattern, string) per known finding; run in every tier (the same cases are the replay recipes of
+# known_findings.d/regex.json)
 WITNESSES = [
-    ("a\\^b", "a^b"),                       # re-escaped-anchor
-    ("\\p{IsGreek}", "\u03b1"),             # re-block-index (rejected) ...
-    ("\\p{IsGreek}", "a"),                  # ... and accepted
     ("\\w", "_"),                           # re-w-underscore (PCRE2 yes, XSD no)
-    ("\\w", "$"),                           # re-w-underscore (PCRE2 no, XSD yes: Sc is not P, Z or C)
-    ("\\i\\c*", "ab"),                      # re-unsupported-escape
+    ("\\w", "$"),                           # re-w-symbol (PCRE2 no, XSD yes: Sc is not P, Z or C)
+    ("\\i", "a"),                           # re-esc-i
+    ("\\I", "1"),                           # re-esc-I
+    ("\\c+", "ab"),                         # re-esc-c
+    ("\\C", "a"),                           # re-esc-C
     ("[a-z-[aeiou]]", "b"),                 # re-subtraction (rejected) ...
     ("[a-z-[aeiou]]", "a]"),                # ... and accepted
     ("[..]", "."),                          # re-posix-class
+    ("\\P{IsBasicLatin}", "\u00e9"),        # re-block-negated
+    ("\\p{IsGreekExtended}", "\u1f00"),     # re-block-prefix (rejected) ...
+    ("\\p{IsGreekExtended}", "\u03b1"),     # ... and accepted
+    ("\\p{IsSpecials}", "\ufffd"),          # re-block-specials
+    ("\\\\[a]\\p{IsGreek}", "\\a\u03b1"),    # re-block-after-backslash
     (".", "\r"),                            # re-dot-cr
     ("\\s", "\u00a0"),                      # re-s-unicode
 ]
@@ -261,16 +367,40 @@ WITNESSES = [
 # ----------------------------------------------------------------------------------------------------
 R_CHARS = ["a", "b", "^", "$", "-", "_", "\u00e9", "0", "1", ",", "A", "\u00c9", " ", "7", "z", ":", "=", "\u00b5", "#"]
 R_ESC = [("\\\\", "\\"), ("\\.", "."), ("\\-", "-"), ("\\|", "|"), ("\\(", "("), ("\\)", ")"), ("\\*", "*"), ("\\+", "+"),
-         ("\\?", "?"), ("\\{", "{"), ("\\}", "}"), ("\\[", "["), ("\\]", "]"), ("\\n", "\n"), ("\\t", "\t"), ("\\r", "\r")]
+         ("\\?", "?"), ("\\{", "{"), ("\\}", "}"), ("\\[", "["), ("\\]", "]"), ("\\n", "\n"), ("\\t", "\t"), ("\\r", "\r"),
+         ("\\^", "^"), ("\\^", "^")]
 R_SETS = [("\\d", "07"), ("\\D", "a_ \u00e9"), ("\\s", " \t\n"), ("\\S", "a^\u00e9"), ("\\p{L}", "aZ\u00e9\u00aa"),
           ("\\p{Lu}", "A\u00c9"), ("\\p{Ll}", "a\u00e9\u00b5"), ("\\p{Nd}", "19"), ("\\p{N}", "1\u00b2"), ("\\P{L}", "1_ "),
           ("\\p{P}", "_-!"), ("\\p{S}", "$^+"), ("\\p{Sc}", "$\u00a3"), ("\\p{Z}", " \u00a0"), ("\\P{Nd}", "a\u00e9"),
           ("\\p{Pd}", "-"), ("\\p{Sk}", "^`")]
-R_DEV = [("\\^", "^"), ("\\w", "a_$1"), ("\\W", "_$ -"), ("\\i", "a_:"), ("\\c", "a1-."), ("\\I", "1-"), ("\\C", " $"),
-         ("\\p{IsBasicLatin}", "a~"), ("\\p{IsLatin-1Supplement}", "\u00e9\u00ff"), ("\\p{IsGreek}", "\u03b1\u03c9"),
-         ("\\P{IsBasicLatin}", "\u00e9\u03b1"), ("\\p{IsCyrillic}", "\u0416")]
+# blocks that libyang translates correctly (since 0ef0929): part of the ordinary vocabulary, in every tier
+
+
+def block_ranges():
+    """name -> (lo, hi) scraped from the table in lys_compile_pattern_chblocks_xmlschema2perl() of the tree under check"""
+    import re
+    src = open(os.path.join(vlib.REPO, "src", "schema_compile_node.c"), encoding="utf-8", errors="replace").read()
+    out = {}
+    for name, lo, hi in re.findall(r'\{"([A-Za-z0-9-]+)", "\[\\\\x\{([0-9A-F]{4})\}-\\\\x\{([0-9A-F]{4})\}\]"\}', src):
+        out[name] = (int(lo, 16), int(hi, 16))
+    return out
+
+
+R_BLOCKS = [("\\p{IsBasicLatin}", "a~^$"), ("\\p{IsLatin-1Supplement}", "\u00e9\u00ff"), ("\\p{IsGreek}", "\u03b1\u03c9"),
+            ("\\p{IsCyrillic}", "\u0416"), ("\\p{IsBasicLatin}", "a_-"), ("\\p{IsLatin-1Supplement}", "\u00b5\u00c9")]
+# constructs on which libyang deviates from XSD (known findings): thorough tier only
+R_DEV = [("\\w", "a_$1"), ("\\W", "_$ -"), ("\\i", "a_:"), ("\\c", "a1-."), ("\\I", "1-"), ("\\C", " $"),
+         ("\\P{IsBasicLatin}", "\u00e9\u03b1"), ("\\p{IsGreekExtended}", "\u1f00\u03b1"), ("\\p{IsSpecials}", "\ufffd\ufeff"),
+         ("\\p{IsCJKCompatibilityForms}", "\ufe30\u3300"), ("\\\\[a]\\p{IsGreek}", "\u03b1"), ("\\\\\\p{IsGreek}", "\u03b1")]
 R_STR = ["a", "b", "^", "$", "_", "\u00e9", "-", "0", "1", "7", "A", "\u00c9", " ", "\t", "z", ".", "|", "(", "]", "\\", ",", ":", "\u00b5",
-         "\u00b2", "{", "+", "*"]
+         "\u00b2", "{", "+", "*", "\u03b1", "\u0416"]
+CAT_ESC = __import__("re").compile(r"\\[pP]\{(?!Is)|\\[dDwWiIcC]")
+
+
+def latin1_only(pat):
+    """the XSD reference knows general categories, \\w, \\d, \\i and \\c exactly for U+0000..U+00FF only (Xsd.v): patterns
+    that use them are run on strings of that range"""
+    return CAT_ESC.search(pat) is not None
 
 
 def r_class(rng, dev):
@@ -289,11 +419,11 @@ def r_class(rng, dev):
             items.append(lo + "-" + hi)
             samp += [lo, hi]
         elif k < 0.75:
-            t, s = rng.choice([e for e in R_ESC if e[1] in "\\-[]\n\t"] + [("\\^", "^")])
+            t, s = rng.choice([e for e in R_ESC if e[1] in "\\-[]\n\t^"])
             items.append(t)
             samp.append(s)
         elif k < 0.9:
-            t, s = rng.choice(R_SETS + (R_DEV[1:] if dev and rng.random() < 0.5 else []))
+            t, s = rng.choice(R_SETS + R_BLOCKS + ([e for e in R_DEV if "[a]" not in e[0]] if dev and rng.random() < 0.5 else []))
             items.append(t)
             samp.append(rng.choice(s))
         elif i > 0:
@@ -325,7 +455,7 @@ def r_atom(rng, depth, dev):
         t, s = rng.choice(R_ESC)
         return t, lambda r: s
     if k < 0.68:
-        t, s = rng.choice(R_SETS)
+        t, s = rng.choice(R_SETS if rng.random() < 0.6 else R_BLOCKS)
         return t, lambda r: r.choice(s)
     if k < 0.74 and dev:
         t, s = rng.choice(R_DEV)
@@ -378,37 +508,21 @@ class _Regex(Comp):
     extra_cflags = WRAP
 
 
-def ub_possible(pat):
-    """the block rewrite would index ublock2urange out of range for some occurrence of \\p{Is (defect D3 of Rewrite.v:
-    the bracket counter, which skips a bracket when the previous byte is a backslash, is not in 0..83 there). This
-    replays the loop of lys_compile_pattern_chblocks_xmlschema2perl() on the pattern (the inserted backslashes of the
-    first pass stand before '^' / '$' only and do not change the count); it only FILTERS generated cases, the model
-    answers UB for them and a wrong filter shows up as a mismatch."""
-    b = pat.encode("utf-8") if isinstance(pat, str) else bytes(pat)
-    for _ in range(len(b) + 1):
-        pos = b.find(b"\\p{Is")
-        if pos < 0:
-            return False
-        end = b.find(b"}", pos)
-        if end < 0 or not any(b.startswith(n.encode(), pos + 5) for n in BLOCKS):
-            return False
-        cnt = 0
-        for i in range(pos):
-            if b[i] == 0x5b and (i == 0 or b[i - 1] != 0x5c):
-                cnt += 1
-            if b[i] == 0x5d and (i == 0 or b[i - 1] != 0x5c):
-                cnt -= 1
-        if cnt < 0 or cnt > 83:
-            return True
-        b = b[:pos] + (b"[BBBBBBBBBBBBBBBBB]" if cnt == 0 else b"BBBBBBBBBBBBBBBBB") + b[end + 1:]
-    return True
-
-
 R_TOK = PAT_ALPHA + ["\\p{Is", "\\p{IsGreek}", "\\p{IsBasicLatin}", "\\P{IsArabic}", "}", "\\\\", "\\[", "\\]", "\\^", "\\$", "[^", "\\p{L}",
-                     "\\p{", "Is", "Greek", "p", "\\d", "[a-z]", "\\\\[", "\\\\]", "\\p{IsSpecials}", "\\p{IsCJKCompatibilityForms}", "x"]
+                     "\\p{", "Is", "Greek", "p", "\\d", "[a-z]", "\\\\[", "\\\\]", "\\p{IsSpecials}", "\\p{IsCJKCompatibilityForms}", "x",
+                     "\\\\\\p{IsThai}", "\\p{IsGreekExtended}"]
 
+# the inputs on which the block rewrite indexed its table out of bounds before 0ef0929 (bracket counter below zero
+# after an escaped backslash, or above the table size)
 UB_PATTERNS = ["\\\\[]\\p{IsGreek}", "[\\\\[]]\\p{IsBasicLatin}", "a\\\\[b]\\p{IsThai}", "[" * 84 + "\\p{IsBasicLatin}",
-               "[" * 85 + "\\p{IsBasicLatin}"]
+               "[" * 85 + "\\p{IsBasicLatin}", "[" * 300 + "\\p{IsSpecials}", "\\\\]" * 0 + "\\\\[]\\\\[]\\p{IsGreek}"]
+
+
+def ub_like(rng):
+    """patterns of the shape of UB_PATTERNS: escaped backslashes directly before brackets, deep nesting, then a block"""
+    pre = "".join(rng.choice(["\\\\[", "\\\\]", "[", "]", "\\[", "\\]", "a", "\\\\", "[\\\\]", "\\\\[]", "[" * rng.randint(1, 90)])
+                  for _ in range(rng.randint(1, 6)))
+    return pre + "\\p{Is%s}" % rng.choice(BLOCKS) + rng.choice(["", "]", "]]", "a"])
 
 
 class Rewrite(_Regex):
@@ -424,17 +538,22 @@ class Rewrite(_Regex):
         for b in BLOCKS:
             for ctx in ("\\p{Is%s}", "[\\p{Is%s}]", "[^\\p{Is%s}a]", "a\\p{Is%s}+$", "[a-[\\p{Is%s}]]", "\\P{Is%s}", "\\\\p{Is%s}",
                         "[\\\\]\\p{Is%s}", "\\[\\p{Is%s}", "[\\]\\p{Is%s}]", "\\p{Is%s}\\p{Is%s}", "[\\p{Is%s}\\p{Is%s}]", "^\\p{Is%s}[$]",
-                        "\\p{Is%sX}", "\\p{Is%s", "\\p{Is%s}}", "[[\\p{Is%s}]"):
+                        "\\p{Is%sX}", "\\p{Is%s", "\\p{Is%s}}", "[[\\p{Is%s}]", "\\\\[a]\\p{Is%s}", "\\\\\\p{Is%s}\\p{Is%s}",
+                        "\\^\\p{Is%s}\\$"):
                 pats.append(ctx.replace("%s", b))
             pats.append("\\p{Is%s}" % b[:-1])
             pats.append("\\p{Is%s}" % b.lower())
         for p in ("\\p{Is}", "\\p{Is", "\\p{IsFoo}", "\\p{L}", "\\p{Is}Greek}", "\\p{IsGre}ek}", "\\p{IsGreek}\\p{IsFoo}", "\\p{IsFoo}\\p{IsGreek}",
-                  "\\p{IsGreek}\\p{Is", "a]\\p{IsGreek}", "\\p{IsGreek}]", "\\p{IsGreek}a]", "\\p{\\p{IsGreek}", "\\p{Is\\p{IsGreek}}"):
+                  "\\p{IsGreek}\\p{Is", "a]\\p{IsGreek}", "\\p{IsGreek}]", "\\p{IsGreek}a]", "\\p{\\p{IsGreek}", "\\p{Is\\p{IsGreek}}",
+                  "\\p{IsGreek\\}", "a\\^b", "a\\$b", "\\\\^", "\\\\\\^", "[\\^]^", "\\^\\$^$"):
             pats.append(p)
-        # bracket depth k selects table entry k (defect D2): covers every entry of the table incl. the long "Specials" one
-        for k in range(0, 84):
+        # bracket depth 0..90 before a block (before 0ef0929 the depth selected the table entry)
+        for k in range(0, 91):
             pats.append("[" * k + "\\p{IsBasicLatin}")
             pats.append("[" * k + "\\p{IsGreek}" + "]" * k)
+        pats += UB_PATTERNS
+        for _ in range(self.n(tier, 600, 30000, scale)):
+            pats.append(ub_like(rng))
         # random token strings (mostly not valid regular expressions)
         for _ in range(self.n(tier, 4000, 300000, scale)):
             k = rng.randint(1, 10)
@@ -444,15 +563,16 @@ class Rewrite(_Regex):
             pats.append(r_regexp(rng, 2, True)[0])
         L = []
         for p in pats:
-            if "\x00" in p or ub_possible(p):
+            if "\x00" in p:
                 continue
             L.append("rewrite\t" + hexs(p))
         return L
 
 
 class RewriteUB:
-    """the block rewrite must not index ublock2urange[] out of bounds (bracket counter wraps below zero after an
-    escaped backslash, or exceeds the table): sanitizer build reports it"""
+    """the block rewrite runs clean under ASan/UBSan on the inputs that indexed ublock2urange[] out of bounds before
+    0ef0929 (bracket counter below zero after an escaped backslash, or above the table size) and on generated patterns
+    of the same shape"""
     name = "rewrite-ub"
     driver = "t_regex"
     extra_cflags = WRAP
@@ -460,7 +580,8 @@ class RewriteUB:
     quick_sanitize = True
 
     def gen(self, rng, tier, scale=1.0):
-        return ["rewrite\t" + hexs(p) for p in UB_PATTERNS]
+        n = int((20000 if tier == "thorough" else 400) * scale)
+        return ["rewrite\t" + hexs(p) for p in UB_PATTERNS + [ub_like(rng) for _ in range(n)]]
 
     def judge(self, line, out):
         if out.startswith("CRASH") or out.startswith("TIMEOUT"):
@@ -484,12 +605,27 @@ class Match(_Regex):
     one pattern and up to 56 strings; answer per string = "<utility> <validator>", joined by ','"""
     name = "match"
     include_witnesses = True
+    sanitize = False            # the sanitizer build runs Rewrite and RewriteUB; the matching itself is PCRE2's
 
     def gen(self, rng, tier, scale=1.0):
         L = []
+        for p, ss in REGRESSION:
+            L += match_lines(p, ss)
         if self.include_witnesses:
             for p, s in WITNESSES:
                 L += match_lines(p, [s])
+        # every block of the table that libyang translates (all but the shadowed names and Specials), outside and inside
+        # brackets, on the ends of its range and their neighbours
+        for name, (lo, hi) in sorted(block_ranges().items()):
+            if name in SHADOWED:
+                continue
+            cps = [c for c in (lo, hi, lo - 1, hi + 1, (lo + hi) // 2) if 0x20 <= c <= 0xfffd and not 0xd800 <= c <= 0xdfff
+                   and not 0xfdd0 <= c <= 0xfdef and c != 0x7f]
+            ss = [chr(c) for c in cps] + ["a", "", chr(cps[0]) * 2]
+            L += match_lines("\\p{Is%s}" % name, ss)
+            L += match_lines("[^\\p{Is%s}a]" % name, ss)
+            if tier == "thorough" or rng.random() < 0.3:
+                L += match_lines("([b\\p{Is%s}]|\\^)+" % name, ss + ["b" + chr(cps[0]) + "^", "^^", "$"])
         strs = all_strings(STR_ALPHA, 3)
         # exhaustive small patterns; quick: sizes 0..2 and a sample of size 3, restricted to patterns where PCRE2 and XSD
         # are expected to agree; thorough: sizes 0..3 and a sample of size 4, deviating patterns included
@@ -512,7 +648,7 @@ class Match(_Regex):
         for _ in range(self.n(tier, 1500, 100000, scale)):
             dev = tier == "thorough" and rng.random() < 0.3
             p, f = r_regexp(rng, 2, dev)
-            if len(p) > 120 or "'" in p or (tier != "thorough" and (expected_dev(p) or ub_possible(p))):
+            if len(p) > 120 or "'" in p or (tier != "thorough" and expected_dev(p)):
                 continue
             ss = set()
             for _ in range(6):
@@ -525,34 +661,43 @@ class Match(_Regex):
             for _ in range(4):
                 ss.add("".join(rng.choice(R_STR) for _ in range(rng.randint(0, 5))))
             ss = [s for s in ss if "\r" not in s or "dot" not in features(p) or tier == "thorough"]
+            if latin1_only(p):
+                ss = [s for s in ss if all(ord(ch) < 0x100 for ch in s)]
             L += match_lines(p, sorted(ss))
         return L
 
     def witness(self, line, model_out, impl_out):
+        """every string of the line on which the implementation and the XSD reference differ is classified; the line is
+        attributed to a known finding only when ALL its differences are"""
         f = line.split("\t")
         pat = unhex(f[1]).decode("utf-8", "replace")
         m = model_out.split(",")
         o = impl_out.split(",")
+        found = []
         for i, h in enumerate(f[2:]):
             mi = m[i] if i < len(m) else "?"
             oi = o[i] if i < len(o) else "?"
             if mi != oi:
                 s = unhex(h).decode("utf-8", "replace")
-                tag = "re-block-oob" if ub_possible(pat) else ("re-match-limit" if "L" in oi else classify(pat, s))
-                what = "XSD says %s, ly_pattern_match/lyd_value_validate say %s" % (mi, oi)
                 if "X" in mi or "?" in mi:
                     return (None, "pattern %r string %r: outside the modelled XSD subset (generator or parser defect)" % (pat, s))
-                if oi[:1] != oi[-1:]:
+                tag = "re-match-limit" if "L" in oi else classify(pat, s)
+                what = "XSD says %s, ly_pattern_match/lyd_value_validate say %s" % (mi, oi)
+                if oi[:1] != oi[-1:] and "L" not in oi:
                     what += " (the two entry points disagree)"
-                    tag = tag if tag == "re-block-oob" else None
-                return (tag, "pattern %r string %r: %s" % (pat, s, what))
-        return None
+                    tag = None
+                found.append((tag, "pattern %r string %r: %s" % (pat, s, what)))
+        for t in found:
+            if t[0] is None:
+                return t
+        return found[0] if found else None
 
 
 class MatchList(_Regex):
     """lyplg_type_validate_patterns() through lyd_value_validate() on a leaf with several patterns, some inverted,
     vs Rewrite.validate_patterns over the XSD matcher"""
     name = "matchlist"
+    sanitize = False
 
     def gen(self, rng, tier, scale=1.0):
         L = []
@@ -563,7 +708,7 @@ class MatchList(_Regex):
             ps = []
             for _ in range(k):
                 p = rng.choice(small) if rng.random() < 0.7 else r_regexp(rng, 1, False)[0]
-                if "'" in p or expected_dev(p) or ub_possible(p):
+                if "'" in p or expected_dev(p):
                     p = "a"
                 ps.append("%d\t%s" % (rng.randrange(2), hexs(p)))
             for s in rng.sample(strs, 8):
@@ -574,3 +719,114 @@ class MatchList(_Regex):
                 L.append("matchlist\t%s\t%d\t%s\t%d\t%s" % (hexs(s), inv, hexs("a"), 1 - inv, hexs("a|b")))
         L.append("matchlist\t" + hexs("a"))
         return L
+
+
+class EntryPoints:
+    """the four entry points give the same answer for the same pattern and string: ly_pattern_match(),
+    lyd_value_validate() on a leaf with the pattern, the XPath function re-match() (lyd_eval_xpath() on a data tree that
+    holds string and pattern; all three through impl/t_regex.c) and the yangre tool built from the tree (exit status 0 =
+    match, 2 = no match, 1 = pattern rejected). Patterns: valid XSD, deviating and malformed alike - the answers may be
+    wrong with respect to XSD (that is Match), they must be the SAME."""
+    name = "entry-points"
+    driver = None                 # run() drives both the white-box driver and the yangre process
+    kinds = ["rel"]
+    YANGRE_SHARE = 0.25           # share of the (pattern, string) pairs that are also given to yangre (one process each)
+
+    def n(self, tier, quick, thorough, scale=1.0):
+        return max(1, int((thorough if tier == "thorough" else quick) * scale))
+
+    def gen(self, rng, tier, scale=1.0):
+        L = []
+        fixed = [(p, ss) for p, ss in REGRESSION] + [(p, [s]) for p, s in WITNESSES] + \
+                [("[a", ["a"]), ("a]", ["a]"]), ("\\p{IsFoo}", ["a"]), ("\\p{IsGreek", ["a"]), ("", ["", "a"]), ("a|", ["", "a"]),
+                 ("(a", ["a"]), ("a{2,1}", ["aa"]), ("\\", ["\\"]), ("a\\$b", ["a$b"]), ("-a", ["-a", "a"]), ("\\-\\-", ["--"])]
+        for p, ss in fixed:
+            L.append("entry\t" + hexs(p) + "\t" + "\t".join(hexs(s) for s in ss))
+        small = [p for n in range(0, 3) for p in e_regexps(n)]
+        strs = all_strings(STR_ALPHA, 2)
+        for _ in range(self.n(tier, 500, 20000, scale)):
+            k = rng.random()
+            if k < 0.4:
+                p = rng.choice(small)
+                ss = rng.sample(strs, 6)
+            elif k < 0.85:
+                p, f = r_regexp(rng, 2, rng.random() < 0.3)
+                ss = set()
+                for _ in range(3):
+                    try:
+                        m = f(rng)
+                    except IndexError:
+                        m = ""
+                    ss.add(m)
+                    ss.add(mutate_str(rng, m))
+                ss = sorted(ss)
+            else:
+                p = "".join(rng.choice(R_TOK) for _ in range(rng.randint(1, 6)))
+                ss = ["".join(rng.choice(R_STR) for _ in range(rng.randint(0, 4))) for _ in range(3)]
+            if "\x00" in p or len(p) > 120:
+                continue
+            # keep to values that every entry point can be given: valid YANG string characters, no NUL
+            ss = [s for s in ss if all(ch in "\t\n\r" or ord(ch) >= 0x20 for ch in s)]
+            if ss:
+                L.append("entry\t" + hexs(p) + "\t" + "\t".join(hexs(s) for s in ss[:PACK]))
+        return L
+
+    def _yangre(self, exe, pat, s):
+        if "'" in pat or "\n" in pat or "\r" in pat:
+            return "-"
+        try:
+            p = subprocess.run([exe, "-p", "'" + pat + "'", "--", s], stdout=subprocess.DEVNULL, stderr=subprocess.DEVNULL, timeout=30)
+        except subprocess.TimeoutExpired:
+            return "T"
+        return {0: "1", 2: "0", 1: "E"}.get(p.returncode, "C%d" % p.returncode)
+
+    def run(self, lines):
+        drv = vlib.build_driver("t_regex", "rel", WRAP)
+        outs, _ = vlib.run_sharded(drv, lines, timeout=600)
+        yangre = os.path.join(vlib.build_lib("rel"), "yangre")
+        if not os.path.exists(yangre):
+            return [o + "\tnoyangre" for o in outs]
+        jobs = []
+        rnd = __import__("random").Random(len(lines))
+        for i, l in enumerate(lines):
+            f = l.split("\t")
+            try:
+                pat = unhex(f[1]).decode("utf-8")
+            except UnicodeDecodeError:
+                continue
+            for j, h in enumerate(f[2:]):
+                if i < 40 or rnd.random() < self.YANGRE_SHARE:
+                    try:
+                        jobs.append((i, j, pat, unhex(h).decode("utf-8")))
+                    except UnicodeDecodeError:
+                        pass
+        with ThreadPoolExecutor(max_workers=vlib.NCPU) as ex:
+            res = list(ex.map(lambda jb: self._yangre(yangre, jb[2], jb[3]), jobs))
+        ys = {}
+        for (i, j, _, _), r in zip(jobs, res):
+            ys.setdefault(i, {})[j] = r
+        out = []
+        for i, o in enumerate(outs):
+            parts = o.split(",")
+            if i in ys and len(parts) == len(lines[i].split("\t")) - 2:
+                parts = [pt + " " + ys[i].get(j, "-") for j, pt in enumerate(parts)]
+            out.append(",".join(parts))
+        return out
+
+    def judge(self, line, out):
+        f = line.split("\t")
+        pat = unhex(f[1]).decode("utf-8", "replace")
+        if out.startswith("CRASH") or out.startswith("TIMEOUT") or out == "?":
+            return (None, "pattern %r: %s" % (pat, out))
+        if out.endswith("\tnoyangre"):
+            return (None, "the yangre tool was not built from the tree")
+        for i, ans in enumerate(out.split(",")):
+            a = ans.split(" ")
+            s = unhex(f[2 + i]).decode("utf-8", "replace") if 2 + i < len(f) else "?"
+            # V = the string or the pattern cannot be stored in a YANG string leaf (re-match() cannot be asked),
+            # - = yangre was not asked; L = the matcher gave up: every entry point must then refuse the value
+            vals = [x for x in a if x not in ("V", "-")]
+            norm = set("0" if x == "L" else x for x in vals)
+            if len(a) < 3 or len(norm) > 1:
+                return (None, "pattern %r string %r: ly_pattern_match / lyd_value_validate / re-match() / yangre answer %s" % (pat, s, ans))
+        return None
